@@ -838,10 +838,16 @@ impl NewCase {
         } else {
             "E1"
         };
+        use std::sync::atomic::Ordering::Relaxed;
+        if engine == "E2" && self.workers() >= 1 && crate::exec::E2_UNUSABLE.load(Relaxed) >= 3 {
+            // established earlier in this batch (three times): E2 cannot run this tree's threads
+            return self.real_binary_verdict(ctx, dir, "e2_unusable_for_this_tree_real_binary_used");
+        }
         let cmd = self.cmd(false);
         let o = match exec(ctx, dir, &cmd) {
             Ok(o) => o,
             Err(e) if e.0.starts_with("SEAM-ESCAPE") && !self.e3 => {
+                crate::exec::E2_UNUSABLE.fetch_add(1, Relaxed);
                 // The threads of this tree are not created where the seam is (code moved to another
                 // module, say): the shuttle executor cannot schedule them. Engine E3 schedules the real
                 // binary's real threads and needs no seam at all.
@@ -861,7 +867,12 @@ impl NewCase {
             // simulator does not control while the holder is suspended (an artefact of E2: code outside
             // the seam, e.g. the library, took a std lock across the entropy call). The real binary
             // under the shim's scheduler (E3) models those locks: its verdict is the one that counts.
-            return self.real_binary_verdict(ctx, dir, "e2_stalled_real_binary_verdict_used");
+            let r = self.real_binary_verdict(ctx, dir, "e2_stalled_real_binary_verdict_used")?;
+            if !r.violations.iter().any(|v| v.clause == "hang") {
+                // the real binary does not hang: the stall was E2's
+                crate::exec::E2_UNUSABLE.fetch_add(1, Relaxed);
+            }
+            return Ok(r);
         }
         self.account_faults(&o, &mut rep);
         self.judge(&o, &mut rep, engine);
